@@ -29,7 +29,8 @@ def main():
         jobs.append(("seed", d["id"], os.path.join(os.path.dirname(m), "patch.diff"), d["property"]))
     for p in sorted(glob.glob(os.path.join(HERE, "mutants", "patches", "neutral", "N*-n*.diff"))) + \
             sorted(glob.glob(os.path.join(HERE, "mutants", "patches", "neutral2", "M*-n*.diff"))) + \
-            sorted(glob.glob(os.path.join(HERE, "mutants", "patches", "neutral3", "T*-n*.diff"))):
+            sorted(glob.glob(os.path.join(HERE, "mutants", "patches", "neutral3", "T*-n*.diff"))) + \
+            sorted(glob.glob(os.path.join(HERE, "mutants", "patches", "neutral4", "U*-n*.diff"))):
         b = os.path.basename(p)
         jobs.append(("neutral", b[:-5], p, b[1:4]))
     bad = 0
